@@ -141,6 +141,14 @@ theorem accept_updated_fields_match_model :
     Generated.acceptUpdatedFields
       = if keepAllowListOnUpdate then ["TransferLimit", "AllowList"] else ["TransferLimit"] := by decide
 
+/-- **The second switch follows the source**: `accountControlsAllSupply` reads the marker's
+recorded supply (`m.GetSupply`) exactly when the model compares with the record, and the bank
+supply (`k.bankKeeper.GetSupply`) exactly when the model compares with the coins in existence. -/
+theorem supply_control_source_matches_model :
+    Generated.supplyControlCalls.contains "k.bankKeeper.GetBalance" = true
+    ∧ Generated.supplyControlCalls.contains "m.GetSupply" = !supplyControlViaBank
+    ∧ Generated.supplyControlCalls.contains "k.bankKeeper.GetSupply" = supplyControlViaBank := by decide
+
 end Facts
 
 end PvProofs.C12
